@@ -41,6 +41,8 @@ SCAN_PROGRAMS = [
     ('100,101,102,200,201', 'Sf|R102'),                      # re-seek to a removed key that was the last of its node (fall-off)
     ('100,101,200,201,202', 'Sr|R200'),
     ('100,101,200,201,300', 'F105f;F1ffr|I106;R106'),        # bounds that leave the tree below the root
+    ('110,111,250,251', 'Sf|I112;I220'),                     # a step that is NOT an atomic successor query (C09c_step_not_atomic): must pass
+    ('110,111,250,251', 'Sr|I24f;I120'),
     ('1,2,3,10,11', 'Sf!2;Sr!3|I4;R2'),                      # visitor halts the scan
     ('100,101,200,201,300', 'F101f!2;Q300-100!1|R200;I250'),
 ]
@@ -212,7 +214,7 @@ def check(pid, tier, replay=None):
     ]
     have = os.path.exists(os.path.join(COQ, PROPS[pid]))
     if have:
-        extra = {'C09': ['Properties/Properties_C09b.v'], 'C03': ['Properties/Properties_C03b.v', 'Properties/Properties_C03c.v', 'Properties/Properties_C03d.v']}
+        extra = {'C09': ['Properties/Properties_C09b.v', 'Properties/Properties_C09c.v'], 'C03': ['Properties/Properties_C03b.v', 'Properties/Properties_C03c.v', 'Properties/Properties_C03d.v']}
         proof_stage(res, ['lock'], [PROPS[pid]] + extra.get(pid, []), pid)
     else:
         res.proof_ok, res.broken, res.proof_log = True, [], ''
@@ -259,11 +261,14 @@ def check(pid, tier, replay=None):
             return job, rc, o, e, '', ''
         rc2, lin, e2 = sh([os.path.join(OCAML, 'lin_run')], input=o, timeout=1800)
         rc3, rep, e3 = sh([os.path.join(OCAML, 'olc_replay')], input=o, timeout=1800)
+        # the event lines have been consumed by the two validators; keep only the history / problem lines
+        o = '\n'.join(l for l in o.split('\n') if not l.startswith('E '))
         return job, rc, o, e, lin, rep
     with ThreadPoolExecutor(max_workers=8) as ex:
         outs = list(ex.map(run, jobs))
     total = nbad = traces = rejected = events = nscan_checked = proto_ops = proto_bad = 0
     scan_chain_bad = []
+    natomic = {}
     distinct = set()
     samples = []
     nproto = 0
@@ -284,6 +289,8 @@ def check(pid, tier, replay=None):
                 vi += 1
             elif l.startswith('SCAN '):
                 scan_verdicts[vi] = l[5:]
+            elif l.startswith('ATOMIC '):
+                natomic[l[7:]] = natomic.get(l[7:], 0) + 1
         for l in rep.splitlines():
             if l.startswith('T traces='):
                 traces += int(l.split('traces=')[1].split()[0])
@@ -364,8 +371,9 @@ def check(pid, tier, replay=None):
         # the tie between the abstract scan theorem and the iterator is broken (a scan that is not a chain of atomic
         # successor queries) although none of the property's clauses was seen to fail on the explored executions
         init, prog, qs, sched, body = scan_chain_bad[0]
-        res.violation('a scan of the implementation is not a chain of atomic successor queries (hypothesis of the C09 theorems) in %d '
-                      'executions, first on init {%s} program %s' % (len(scan_chain_bad), init, prog),
+        res.violation('a scan of the implementation is not a chain of interval successor queries (Olc/IterModel.wquery: the guarantee proved for '
+                      'the iterator and the hypothesis of the C09c theorems) in %d executions, first on init {%s} program %s'
+                      % (len(scan_chain_bad), init, prog),
                       {'kind': 'correspondence', 'init': init, 'program': prog, 'qs': qs, 'schedule': sched, 'history': body,
                        'broken': 'scan_fwd correspondence (lin_run SCAN verdict)'}, found_input=False)
     if pid == 'C09' and nscan_checked == 0:
@@ -385,6 +393,7 @@ def check(pid, tier, replay=None):
         'operations_checked_by_protocol_acceptor': proto_ops, 'operations_rejected_by_protocol_acceptor': proto_bad,
         'preemption_bound': bound, 'property_failures_on_impl': nbad, 'scans_validated_as_query_chains': nscan_checked,
         'scans_not_query_chains': len(scan_chain_bad),
+        'scans_that_are_even_atomic_chains': natomic.get('yes', 0), 'scans_valid_but_not_atomic': natomic.get('no', 0),
         'rule': 'programs of 2-3 QSBR threads (get / insert / remove / scan / scan_from / scan_range) on small initial trees chosen so that '
                 'the writers perform leaf split, prefix split, growth and shrink between node classes, collapse with inode and leaf sibling, '
                 'root replacement and root removal; quiescent states after every operation or only at thread end; all schedules with at most '
